@@ -34,6 +34,36 @@ for d in sorted(glob.glob(f"{V}/seeded/*/meta.json")):
     sid = os.path.basename(os.path.dirname(d))
     cb = "; ".join(m.get("caught_by", ["(pending)"]))
     out.append(f"| {sid} | {m.get('property','')} | {str(m.get('summary',''))[:260].replace('|','/')} | {str(m.get('needs',''))[:200].replace('|','/')} | {cb[:300].replace('|','/')} | {str(m.get('history',''))[:260].replace('|','/')} |")
+# ---- 13.5 per property: what is claimed, theorems, evidence numbers
+out.append("")
+out.append("### 13.5 Per property: claim, theorems (all `Print Assumptions`: closed under the global context), last quick run\n")
+props = [json.loads(l) for l in open(f"{V}/properties.jsonl")]
+for pr in props:
+    pid = pr["id"]
+    cf = f"{V}/tools/claims.d/{pid}.json"
+    if not os.path.exists(cf):
+        continue
+    c = json.load(open(cf))
+    src = open(f"{V}/coq/theories/Properties/{pid}.v").read()
+    thms = re.findall(r"^(?:Theorem|Lemma|Corollary)\s+([\w']+)", src, flags=re.M)
+    exs = re.findall(r"^Example\s+([\w']+)", src, flags=re.M)
+    ev = {}
+    try:
+        ev = json.load(open(f"{V}/evidence/{pid}.json"))
+    except Exception:
+        pass
+    cov = ev.get("coverage", {})
+    out.append(f"**{pid} — {pr['title']}**  ")
+    out.append(f"*Claim:* {c['text']}  ")
+    out.append(f"*Theorems ({len(thms)}):* " + ", ".join(f"`{t}`" for t in thms) + (f"; *examples ({len(exs)}):* " + ", ".join(f"`{t}`" for t in exs) if exs else "") + "  ")
+    refuted = [t for t in thms if "refuted" in t]
+    partial = [t for t in thms if "partial" in t]
+    if refuted or partial:
+        out.append(f"*Refuted/partial statements kept visible:* " + ", ".join(f"`{t}`" for t in refuted + partial) + "  ")
+    if cov:
+        out.append(f"*Last {ev.get('tier')} run (seed {ev.get('seed')}):* {cov.get('discharged')}/{cov.get('obligations')} obligations, "
+                   f"{cov.get('evaluations')} evaluations ({cov.get('distinct_nontrivial')} distinct non-trivial), {ev.get('wall_s')} s.  ")
+    out.append(f"*Trusted / not verified:* {c['note']}\n")
 text = "\n".join(out) + "\n"
 p = f"{V}/DESIGN.md"
 s = open(p).read()
